@@ -13,6 +13,7 @@ Part 2 (`Props/C20Lock.lean`): the simulated acceptor wiring is in lock-step wit
 endpoints on clean scripts.
 -/
 import AsyncFix.Lemmas.TesterFab
+import AsyncFix.Lemmas.TesterDict
 namespace AsyncFix.Props.C20
 open AsyncFix.Tester AsyncFix.Model.OrderTable
 
@@ -160,5 +161,199 @@ theorem fabricated_processable_partial {sc : Option (RMsg → Bool)} {st st' : T
   simp only [buildReport_mtype, r11, r14, r39, r150, r151, r37, r6, r44, r38, hnotmis, hnr, bne_self_eq_false,
     Bool.false_eq_true, if_false, bind, Except.bind, pure, Except.pure]
   split <;> exact applyStatus_ok _ _ _ hs hr
+
+/-- after the first processing the order has adopted the report's OrderID, so from then on
+`order_id_stable_partial` applies: every later report for that order carries the same OrderID -/
+theorem order_id_adopted {sc : Option (RMsg → Bool)} {st st' : TState} {o o' : OrderView} {a : Args} {m : RMsg} {b : Bool}
+    (h : fabricate sc st o a = (st', .ok m)) (hp : processExecReport o m = .ok (o', b)) :
+    o'.orderId = m.str? 37 ∧ o'.orderId.isSome = true := by
+  obtain ⟨_, _, _, rfl, _⟩ := fabricate_ok h
+  obtain ⟨r11, r14, r39, r150, r151, r37, r6, r44, r38⟩ := buildReport_reads o a (orderIdOf st o).2 (st.execCtr + 1)
+  have h37 : (buildReport o a (orderIdOf st o).2 (st.execCtr + 1)).str? 37 = some (orderIdOf st o).2.render := by
+    simp [RMsg.str?, buildReport_get37]
+  rw [h37]
+  unfold processExecReport at hp
+  simp only [buildReport_mtype, r11, r14, r39, r150, r151, r37, r6, r44, r38, bne_self_eq_false,
+    Bool.false_eq_true, if_false, bind, Except.bind, pure, Except.pure] at hp
+  have key : ∀ (o2 : OrderView) (r : Res), o2.orderId = some (orderIdOf st o).2.render →
+      applyStatus o2 r = .ok (o', b) → o'.orderId = some (orderIdOf st o).2.render := by
+    intro o2 r h2 ha
+    unfold applyStatus at ha
+    split at ha
+    · cases ha
+    · cases ha; exact h2
+    · split at ha
+      · cases ha; exact h2
+      · split at ha
+        · cases ha; exact h2
+        · cases ha
+  have : o'.orderId = some (orderIdOf st o).2.render := by
+    split at hp
+    · cases hp
+    · split at hp
+      · cases hp
+      · split at hp
+        · exact key _ _ rfl hp
+        · exact key _ _ rfl hp
+  exact ⟨this, by rw [this]; rfl⟩
+
+/-! ## 3. cancel rejects -/
+
+/-- `fix_cxlrep_reject_msg`: the tags are exactly OrderID, ClOrdID, OrigClOrdID, OrdStatus,
+CxlRejResponseTo; ClOrdID / OrigClOrdID are the request's; CxlRejResponseTo says which request. -/
+theorem cxlrej_inv {sc : Option (RMsg → Bool)} {req : AsyncFix.Session.Msg} {os : String} {m : RMsg}
+    (h : cxlReject sc req os = .ok m) :
+    m.mtype = "9" ∧ m.tagList = [37, 11, 41, 39, 434] ∧
+    m.str? 11 = req.get? 11 ∧ m.str? 41 = req.get? 41 ∧ m.str? 39 = some os ∧
+    (req.mtype = "F" ∨ req.mtype = "G") ∧
+    m.str? 434 = some (if req.mtype = "F" then "1" else "2") ∧
+    dictStruct m.render = true := by
+  unfold cxlReject at h
+  cases h11 : req.get? 11 with
+  | none => simp [h11] at h
+  | some c =>
+    cases h41 : req.get? 41 with
+    | none => simp [h11, h41] at h
+    | some g =>
+      simp only [h11, h41] at h
+      by_cases hty : (req.mtype != mCancelReq && req.mtype != mReplaceReq) = true
+      · simp [hty] at h
+      · simp only [hty, Bool.false_eq_true, if_false] at h
+        have hm : m = { mtype := "9", tags := [(37, .c 0), (11, .s c), (41, .s g), (39, .s os),
+            (434, .s (if req.mtype == mCancelReq then "1" else "2"))] } := by
+          unfold schemaGate at h
+          cases sc with
+          | none => cases h; rfl
+          | some ok =>
+            simp only at h
+            by_cases hok : ok { mtype := "9", tags := [(37, .c 0), (11, .s c), (41, .s g), (39, .s os),
+                (434, .s (if req.mtype == mCancelReq then "1" else "2"))] } = true
+            · rw [if_pos hok] at h; cases h; rfl
+            · rw [if_neg hok] at h; cases h
+        subst hm
+        have hk : req.mtype = "F" ∨ req.mtype = "G" := by
+          simp [mCancelReq, mReplaceReq] at hty
+          by_cases h1 : req.mtype = "F"
+          · exact Or.inl h1
+          · exact Or.inr (hty h1)
+        refine ⟨rfl, rfl, ?_, ?_, ?_, hk, ?_, ?_⟩
+        · simp [RMsg.str?, RMsg.get?, RMsg.lookup, Val.render]
+        · simp [RMsg.str?, RMsg.get?, RMsg.lookup, Val.render]
+        · simp [RMsg.str?, RMsg.get?, RMsg.lookup, Val.render]
+        · simp [RMsg.str?, RMsg.get?, RMsg.lookup, Val.render, mCancelReq]
+        · rw [dictStruct_render]; exact struct9
+
+/-- a fabricated cancel reject is processed by EVERY order object (whatever its state) without raising,
+for every `FOrdStatus` member as reported status (C16's trichotomy for kind 9, non-raising mode) -/
+theorem cxlrej_processable {sc : Option (RMsg → Bool)} {req : AsyncFix.Session.Msg} {os : String} {m : RMsg}
+    (o : OrderView) (hs : os ∈ stVals) (h : cxlReject sc req os = .ok m) :
+    ∃ o' b, processCxlRej o m = .ok (o', b) := by
+  obtain ⟨hty, _, _, _, h39, _, _, _⟩ := cxlrej_inv h
+  have h39' : getS m 39 = .ok os := by
+    simp only [RMsg.str?, Option.map_eq_some_iff] at h39
+    obtain ⟨v, hv, hr⟩ := h39
+    simp [getS, hv, hr]
+  have htri := AsyncFix.Props.C16.trichotomy_partial o.status "9" "0" os false k9_mem
+  have hr : changeStatus AsyncFix.Generated.OrderTable.spec o.status "9" "0" os false = .to os ∨
+      changeStatus AsyncFix.Generated.OrderTable.spec o.status "9" "0" os false = .none := by
+    rcases htri with h | h | h
+    · exact Or.inl h
+    · exact Or.inr h
+    · exact absurd h.2 (by decide)
+  have hnr : (changeStatus AsyncFix.Generated.OrderTable.spec o.status "9" "0" os false == Res.raised) = false := by
+    rcases hr with h | h <;> rw [h] <;> simp
+  unfold processCxlRej
+  simp only [hty, h39', hnr, bne_self_eq_false, Bool.false_eq_true, if_false, bind, Except.bind, pure, Except.pure]
+  exact applyStatus_ok _ _ _ hs hr
+
+/-! ## 4. validity against the dictionary
+
+`dictCheck` (Model/TesterDict.lean) is `FIXSchema.validate` restricted to the helper's messages over
+the tables GENERATED from tests/FIX44.xml; it splits into the structural part (`dictStruct`: known
+type, required members present, no foreign tag) and the lexical part (`dictValues`).  The structural
+part is proved for everything the helper fabricates, for all arguments; the lexical part is a
+hypothesis (datatype checks belong to property C19) and is compared with the real schema at run time. -/
+
+theorem fabricated_dict_struct {sc : Option (RMsg → Bool)} {st st' : TState} {o : OrderView} {a : Args} {m : RMsg}
+    (h : fabricate sc st o a = (st', .ok m)) : dictStruct m.render = true := by
+  obtain ⟨_, _, _, _, _, _, _, _, _, _, hm, ht, _⟩ := fabricated_report_inv h
+  rw [dictStruct_render, hm, ht]
+  exact struct8 (truthy a.origClordId) a.lastQty.isSome
+
+/-- `fabricated_valid`: for ANY notion of validity `Allowed` that accepts a message whenever its type is
+known, its required members are present, all its tags are members, and its values are well-formed –
+with the member list the helper sets being exactly `documentedTags` – every fabricated report whose
+values are well-formed is `Allowed`.  Instantiated with `dictCheck` it says the report validates. -/
+theorem fabricated_valid (Allowed : AsyncFix.Session.Msg → Prop)
+    (hA : ∀ m, dictStruct m = true → dictValues m = true → Allowed m)
+    {sc : Option (RMsg → Bool)} {st st' : TState} {o : OrderView} {a : Args} {m : RMsg}
+    (h : fabricate sc st o a = (st', .ok m)) (hv : dictValues m.render = true) : Allowed m.render :=
+  hA _ (fabricated_dict_struct h) hv
+
+theorem fabricated_dictCheck {sc : Option (RMsg → Bool)} {st st' : TState} {o : OrderView} {a : Args} {m : RMsg}
+    (h : fabricate sc st o a = (st', .ok m)) (hv : dictValues m.render = true) : dictCheck m.render = true := by
+  rw [dictCheck_eq, fabricated_dict_struct h, hv]; rfl
+
+/-- with a schema attached, whatever the helper returns passed that schema (validation is the last step
+and no path bypasses it) -/
+theorem fabricated_passed_schema {ok : RMsg → Bool} {st st' : TState} {o : OrderView} {a : Args} {m : RMsg}
+    (h : fabricate (some ok) st o a = (st', .ok m)) : ok m = true :=
+  (fabricate_ok h).2.2.2.2 ok rfl
+
+/-- session message factories: structurally valid for all arguments (no extra tags for Logon) -/
+theorem session_msgs_struct (t seq new b e : String) (g : Bool) :
+    dictStruct (msgLogon []) = true ∧ dictStruct msgLogout = true ∧
+    dictStruct (msgHeartbeat none) = true ∧ dictStruct (msgHeartbeat (some t)) = true ∧
+    dictStruct (msgTestRequest t) = true ∧ dictStruct (msgSequenceReset seq new g) = true ∧
+    dictStruct (msgResendRequest b e) = true := by
+  simp only [dictStruct_eq]
+  exact ⟨structLogon, structLogout, structHb0, structHb1, structTestReq, structSeqReset, structResend⟩
+
+/-- the default Logon, Logout and the interval Heartbeat validate completely -/
+theorem session_msgs_default_valid :
+    dictCheck (msgLogon []) = true ∧ dictCheck msgLogout = true ∧ dictCheck (msgHeartbeat none) = true := by
+  decide +kernel
+
+theorem reqFinish_ok {sc : Option (RMsg → Bool)} {st st' : TState} {o1 o' : OrderView} {m m' : RMsg} {nc : String}
+    (h : reqFinish sc st o1 m nc = (st', o', .ok m')) : m' = m ∧ o' = o1 ∧ nc ∈ st'.registered := by
+  unfold reqFinish at h
+  cases sc with
+  | none =>
+    simp only [Prod.mk.injEq, Except.ok.injEq] at h
+    obtain ⟨rfl, rfl, rfl⟩ := h
+    exact ⟨rfl, rfl, by simp⟩
+  | some ok =>
+    simp only at h
+    split at h
+    · simp only [Prod.mk.injEq, Except.ok.injEq] at h
+      obtain ⟨rfl, rfl, rfl⟩ := h
+      exact ⟨rfl, rfl, by simp⟩
+    · simp at h
+
+/-- cancel / replace requests the helper hands out are structurally valid and registered under the
+order's NEW ClOrdID, which the order now carries -/
+theorem requests_struct {sc : Option (RMsg → Bool)} {st st' : TState} {o o' : OrderView} {m : RMsg}
+    (nc tm : String) (px q : Option Num) :
+    (cxlRequest sc st o nc tm = (st', o', .ok m) → dictStruct m.render = true ∧ nc ∈ st'.registered ∧ o'.clordId = nc) ∧
+    (repRequest sc st o px q nc tm = (st', o', .ok m) → dictStruct m.render = true ∧ nc ∈ st'.registered ∧ o'.clordId = nc) := by
+  constructor
+  · intro h
+    unfold cxlRequest at h
+    split at h
+    · cases h
+    · split at h
+      · cases h
+      · obtain ⟨rfl, rfl, hr⟩ := reqFinish_ok h
+        exact ⟨by rw [dictStruct_render]; exact structCxlReq, hr, rfl⟩
+  · intro h
+    unfold repRequest at h
+    split at h
+    · cases h
+    · split at h
+      · cases h
+      · split at h
+        · cases h
+        · obtain ⟨rfl, rfl, hr⟩ := reqFinish_ok h
+          exact ⟨by rw [dictStruct_render]; exact structRepReq, hr, rfl⟩
 
 end AsyncFix.Props.C20
